@@ -106,12 +106,28 @@ def prove(goal, assumptions=(), timeout_ms=None, want_smt2=False, tactic=None):
         STATS.queries += 1
         STATS.unsat += 1
         return Result("unsat", 0.0, reason="syntactic")
-    s = z3.Solver()
-    s.set("timeout", int(timeout_ms))
-    for a in assumptions:
-        s.add(a)
-    s.add(z3.Not(g))
-    r = s.check()
+    # portfolio: default solver first (short budget), then the nlsat pipeline (decides many nonlinear identities the
+    # default strategy does not), then the default solver with the full budget
+    attempts = [("default", min(int(timeout_ms), 8000)), ("nlsat", int(timeout_ms) // 2), ("default", int(timeout_ms))]
+    r, s = z3.unknown, None
+    for which, budget in attempts:
+        if which == "default":
+            s = z3.Solver()
+        else:
+            try:
+                s = z3.Then("simplify", "solve-eqs", "purify-arith", "qfnra-nlsat").solver()
+            except Exception:
+                continue
+        s.set("timeout", budget)
+        for a in assumptions:
+            s.add(a)
+        s.add(z3.Not(g))
+        try:
+            r = s.check()
+        except z3.Z3Exception:
+            r = z3.unknown
+        if str(r) in ("sat", "unsat"):
+            break
     dt = time.time() - t0
     STATS.queries += 1
     STATS.time += dt
